@@ -8,3 +8,29 @@ Definition c06_call_eval (x : call_case) : nat :=
   | Some args => if res_eqb pv_eqb (Ok (call_result args)) (snd x) then 0%nat else 2%nat
   | None => if res_eqb pv_eqb (Err TimeoutError) (snd x) then 0%nat else 2%nat
   end.
+
+(* ---- overlapping call()s / emits with a callback (model and specification in Manager/AckOverlap.v) ----
+   One case = the clients, a schedule of events, and per event what the real server did: the effects
+   and the callback table afterwards; plus the operations still unfinished at the end.
+   c06_overlap_eval = bit 1 (model and implementation disagree) + bit 2 (the observation violates the
+   specification `sstep`) + 4 * (index from 1 of the first event violating the specification). *)
+From VT Require Export Manager.AckOverlap.
+From VT Require Import Check.SrvCheck.
+Record ov_case := mkOv { ov_clients : list str; ov_evs : list oev;
+                         ov_obs : list (list oeff * cb_dump); ov_left : list N }.
+Definition cb_dump_eqb (a b : cb_dump) : bool :=
+  list_eqb (pair_eqb (pair_eqb str_eqb (opt_eqb N.eqb)) (list_eqb N.eqb)) a b.
+Fixpoint ov_corr (st : ostate) (evs : list oev) (obs : list (list oeff * cb_dump)) : bool * ostate :=
+  match evs, obs with
+  | [], [] => (true, st)
+  | e :: r, (fx, d) :: os =>
+      let '(st1, mfx) := ostep st e in
+      let '(b, sf) := ov_corr st1 r os in
+      (fx_eqb mfx fx && cb_dump_eqb (dump_cbs (o_mg st1)) d && b, sf)
+  | _, _ => (false, st)
+  end.
+Definition c06_overlap_eval (c : ov_case) : nat :=
+  let '(b, sf) := ov_corr (oinit (ov_clients c)) (ov_evs c) (ov_obs c) in
+  let corr := b && list_eqb N.eqb (left_of (o_tasks sf)) (ov_left c) in
+  let bad := srun (sinit (ov_clients c)) (ov_evs c) (map fst (ov_obs c)) 0 in
+  ((if corr then 0 else 1) + (match bad with O => 0 | _ => 2 end) + 4 * bad)%nat.
